@@ -5,7 +5,7 @@ CONSTANT AnnSeq <- Anns_si
 CONSTANT BVVSeq <- None
 CONSTANT MaxAnn = 1
 CONSTANT MaxLive = 6
-CONSTANT MaxSteps = 6
+CONSTANT MaxSteps = 5
 CONSTANT Coded = FALSE
 INVARIANT Inj
 INVARIANT Faithful
